@@ -296,6 +296,42 @@ def _s1_use_and_produce(program, res):
                         if c not in f.params() and any(isinstance(a.stmt, ast.Assign) and isinstance(a.stmt.targets[0], ast.Name)
                                                        and a.stmt.targets[0].id == c for a in g.stmt_nodes(("stmt",))):
                             acc = c
+    # completeness of the two operands of that intersection: "produced" is the key set of the whole step, "used" the uses of every assignment.
+    # A check inside the loop over the assignments sees all uses of one assignment at a time — enough, provided the produced side is the
+    # whole key set (the parameter's keys), not a container that grows with the loop (the keys parsed so far: a later producer is missed)
+    loop = next((n for n in ast.walk(f.node) if isinstance(n, ast.For) and any(isinstance(x, ast.Name) and x.id in f.params() for x in ast.walk(n.iter))), None)
+    if loop is not None:
+        grown = set()
+        for st in ast.walk(loop):
+            if isinstance(st, ast.Assign):
+                for t in st.targets:
+                    if isinstance(t, ast.Name):
+                        grown.add(t.id)
+                    elif isinstance(t, ast.Subscript) and isinstance(t.value, ast.Name):
+                        grown.add(t.value.id)
+            elif isinstance(st, ast.Call) and isinstance(st.func, ast.Attribute) and st.func.attr in ("add", "update", "append", "extend") and isinstance(st.func.value, ast.Name):
+                grown.add(st.func.value.id)
+        for r in g.raises():
+            in_loop = any(b.stmt is loop for b, _l in g.lexical_guards(r))
+            for (b, _l) in g.lexical_guards(r):
+                names = {n.id for n in ast.walk(b.cond) if isinstance(n, ast.Name)}
+                for n in g.stmt_nodes(("stmt",)):
+                    st = n.stmt
+                    if not (isinstance(st, ast.Assign) and isinstance(st.targets[0], ast.Name) and st.targets[0].id in names):
+                        continue
+                    for call in [c for c in ast.walk(st.value) if isinstance(c, ast.Call) and isinstance(c.func, ast.Attribute) and c.func.attr == "intersection" and c.args]:
+                        operands = [call.func.value, call.args[0]]
+                        produced = [o for o in operands if ".keys()" in unparse(o) or unparse(o).startswith("set(")]
+                        for o in produced:
+                            onames = {x.id for x in ast.walk(o) if isinstance(x, ast.Name)} - {"set"}
+                            partial = onames & grown
+                            if in_loop and partial:
+                                res.fail_at("C26-S1", f, "rule:use and produce in the same step (keys parsed so far)",
+                                            f"inside the loop over the assignments the uses are compared with `{unparse(o)}`, the keys parsed *so far*: an assignment that reads a "
+                                            f"column produced by a later assignment of the same step is accepted — extend({{'x': 'y + 1', 'y': 'a + 1'}}) builds and evaluates, while "
+                                            f"{{'y': 'a + 1', 'x': 'y + 1'}} is refused", st)
+                                return
+                            res.ok("C26-S1", f"use-and-produce: the produced side of the comparison is `{unparse(o)}`, the key set of the whole step")
     if acc is None:
         # the raising guard itself is gone: that is reported by the obligation table (row use-and-produce); nothing to fold here
         res.abstain("C26-S1", "parse_assignments_in_context: accumulator of used columns", "no raise guarded by an intersection of used and produced columns")
